@@ -15,6 +15,7 @@ import (
 //   ghost(cas_other) any other successful CompareAndSwap
 //   ghost(add_one)   Add(addr, 1);  ghost(add_other) any other Add
 //   ghost(stores)    Store / Swap
+//   ghost(obs_zero)  1 iff the last atomic operation in the current critical section was a Load returning 0
 
 const atomicPkg = "github.com/goplus/llgo/runtime/internal/lib/sync/atomic"
 
@@ -23,11 +24,23 @@ func init() {
 		ty := ty
 		extraIntrinsics[atomicPkg+".Load"+ty] = func(r *FnRun, st *State, c ssa.CallInstruction, a []Val) (Val, bool) {
 			cell := r.atomicCell(st, c, a[0])
-			return cell.load(), true
+			v := cell.load()
+			// ghost(obs_zero): 1 iff the most recent atomic operation of this critical
+			// section was a Load that returned 0 (reset by every lock operation and by
+			// every other atomic operation): "the wait condition was checked under the lock"
+			held := False
+			for _, n := range st.locks {
+				if n > 0 {
+					held = True
+				}
+			}
+			st.ghost["ghost:obs_zero"] = st.name("gh_obs_zero", Ite(And(held, Eq(v, zeroLike(v))), BVInt(1, 32, false), BVInt(0, 32, false)))
+			return v, true
 		}
 		extraIntrinsics[atomicPkg+".Store"+ty] = func(r *FnRun, st *State, c ssa.CallInstruction, a []Val) (Val, bool) {
 			cell := r.atomicCell(st, c, a[0])
 			cell.store(a[1].(Term))
+			st.ghost["ghost:obs_zero"] = BVInt(0, 32, false)
 			r.ghostInc(st, "stores", True)
 			return nil, true
 		}
@@ -37,6 +50,7 @@ func init() {
 			d := a[1].(Term)
 			nv := st.name("atomic_add", Add(cur, d))
 			cell.store(nv)
+			st.ghost["ghost:obs_zero"] = BVInt(0, 32, false)
 			one := Eq(d, BVInt(1, d.Sort.W, d.Sort.Signed))
 			r.ghostInc(st, "add_one", one)
 			r.ghostInc(st, "add_other", Not(one))
@@ -48,6 +62,7 @@ func init() {
 			old, nw := a[1].(Term), a[2].(Term)
 			ok := st.name("cas_ok", Eq(cur, old))
 			cell.store(Ite(ok, nw, cur))
+			st.ghost["ghost:obs_zero"] = BVInt(0, 32, false)
 			dec := And(Eq(nw, Sub(old, BVInt(1, old.Sort.W, old.Sort.Signed))), Not(Eq(old, zeroLike(old))))
 			r.ghostInc(st, "cas_dec", And(ok, dec))
 			r.ghostInc(st, "cas_other", And(ok, Not(dec)))
